@@ -322,19 +322,35 @@ namespace igris
         iterator insert(iterator pos, const_iterator first, const_iterator last)
         {
             size_t _pos = pos - m_data;
-            size_t _first = first - m_data;
-            size_t _last = last - m_data;
+            // copied first: the range may be a part of this vector
+            vector tmp(first, last);
+            size_t sz = tmp.size();
+            if (sz == 0)
+                return m_data + _pos;
 
-            size_t sz = _last - _first;
             reserve(m_size + sz);
+            // the tail moves up by sz, then the copies fill the gap: slots at
+            // and beyond the old end() hold no object and are constructed,
+            // the live ones below it are assigned to
+            for (size_t i = m_size; i > _pos; --i)
+            {
+                if (i - 1 + sz >= m_size)
+                    igris::move_constructor(m_data + i - 1 + sz,
+                                            std::move(m_data[i - 1]));
+                else
+                    m_data[i - 1 + sz] = std::move(m_data[i - 1]);
+            }
+            for (size_t i = 0; i < sz; ++i)
+            {
+                if (_pos + i >= m_size)
+                    igris::move_constructor(m_data + _pos + i,
+                                            std::move(tmp.m_data[i]));
+                else
+                    m_data[_pos + i] = std::move(tmp.m_data[i]);
+            }
             m_size += sz;
 
-            iterator first_it = m_data + _pos;
-            iterator last_it = std::prev((iterator)end(), sz);
-            std::move_backward(first_it, last_it, (iterator)end());
-            std::copy(m_data + _first, m_data + _last, first_it);
-
-            return first_it;
+            return m_data + _pos;
         }
 
         iterator insert(int pos, const T &value)
